@@ -76,3 +76,14 @@ REGISTRY.update({
     "C38": _mc("explicit-state enumeration of inputs x ALL numberings of non-sample nodes x probability spaces; invariance + locality + inside-only oracles",
                "Every bounded ARG with >=2 internal nodes x mutation menu x every numbering of the internal nodes x both spaces with ignore_oldest_root=True: results identical across numberings, nodes not below the oldest root identical to the option-off run, nodes whose only parent is the oldest root have posterior == normalised inside, and the option changes something below the root.", _META),
 })
+
+REGISTRY.update({
+    "C09": _mc("schedule and history enumeration on the real code: all completion orders of the likelihood pool through a virtual pool (plus the real pool), all call sequences of length <=3 sharing one prior object, repetition in-process and across fresh processes with different hash seeds",
+               "Every bounded ARG x 3 mutation patterns: 3 in-process repetitions x 4 method configs byte-identical; 12-input stripe in 4 fresh processes with PYTHONHASHSEED 0/1/2/12345; every permutation of imap_unordered completion order (k<=5 keys) and real pools of 1/2/4 workers give the same bytes as the serial run; all 84 sequences of {IO,max}x{lin,log} calls on one shared prior agree with fresh-prior calls and leave the prior object equal to a fresh one."),
+    "C17": {"level": "exploration", "technique": "exhaustive enumeration of a finite lattice of population-size histories x boundary time vectors x gamma parameters; exact rational integral and two independent high-precision quadrature references",
+            "text": "Complete product lattice of 1-3 (quick) / 1-4 (thorough) epoch histories (sizes 0.5..1e6, breaks 0.5..1e6) with time vectors containing 0, every break +-1 ulp, midpoints, in three orders: forward map equals the exact rational integral within a stated conditioning bound, inverse recovers inputs, order of the vector is irrelevant, as_dict round-trips bit-exactly; gamma_to_natural moments equal mode-split 30-digit quadrature (itself cross-checked against a 60-digit closed form on every point).",
+            "note": "finite lattice of a continuous domain (boundaries included); no claim between lattice points; mpmath trusted"},
+    "C36": _mc("crash-point enumeration (every prefix of the real writer's op log x every byte cut of the in-flight write) and stateless schedule exploration with iterative preemption bounding of 2-3 real concurrent callers, on the real code through an I/O seam; file-system model validated against the real directory each run",
+               "For table sizes 2,3,10 (thorough also 25,60) and raw write granularities whole/64/16 bytes every process-crash state of a single writer is materialised and two successive real callers must return the exact table; 2 callers (all interleavings within preemption bound 3 / 6) and 3 callers (bound 1 / 2) from the empty cache, and 2 callers from a spread of crash states, must all hold the exact table and leave a cache that a later run reads back exactly.",
+               "process-crash semantics (completed syscalls durable; no power-loss reordering); threads stand in for processes; np.savetxt/np.genfromtxt/tempfile/os are exercised for real"),
+})
